@@ -51,6 +51,9 @@ FAULTS = [
 FILLERS = ["", "", "   ", "# comment", "#", "# @assert false", "uint8 f{n}", "bool g{n}", "void3", "int16 C{n} = -5", "@assert true",
            "@assert 'multi\nline' != ''", "@assert \"a\n\nb\" != 'x'", "uint8[<=3] h{n}  # trailing", "float32 k{n}",
            # escaped line feeds occupy no line of the file
+           # characters that str.splitlines() treats as line boundaries but DSDL does not (only LF / CRLF end a line)
+           "# page break \x0c here", "# vt \x0b fs \x1c gs \x1d rs \x1e", "# nel \x85 ls \u2028 ps \u2029 done", "uint8 s{n} # \x0c\x0c",
+           "@assert 'a\x0cb' != ''", "@assert \"u\u2028v\u2029w\" != '' # \x85", "@assert 'x\x1cy\x1dz\x1e' != ''  # \x0b",
            "@assert 'esc\\naped' != ''", "@assert \"two\\n\\u000Aescapes\" != '' # \\n in a comment too", "@assert '\\U0000000a' + '\\r' != ''"]
 
 
